@@ -114,6 +114,38 @@ Theorem C11_calc2_on_sched_is_c : forall id c s pre script i st sp q0 q1 sch cx,
 Proof. exact on_sched_is_c. Qed.
 Print Assumptions C11_calc2_on_sched_is_c.
 
+(* [stage 4, C05] a value copy that throws is turned into set_error at the storing node; finally - hence via and
+   with_scheduler_affinity - still runs its completion sender (the hop) and then delivers the error, on c *)
+Theorem C11_calc2_thrown_store_is_error : forall v,
+  (forall a b ns sa tra cx r0a r0bl,
+     a_done BFinally a b ns sa tra (OValT v) cx r0a r0bl =
+     let '(sb, trb, rb) := start b (n_env ns) cx in
+     match rb with
+     | None => (ONode (ns_set_saved (ns_set_ph ns PSecond) (Some (OErr tcode))) OFin sb, (tra ++ dtor a sa) ++ trb, None)
+     | Some ob => seq_final BFinally b sb ((tra ++ dtor a sa) ++ trb) (after_second BFinally (Some (OErr tcode)) ob)
+     end) /\
+  (forall w, after_second BFinally (Some (OErr tcode)) (OVal w) = OErr tcode) /\
+  (forall a b ns sa tra cx r0a r0bl,
+     a_done BLetV a b ns sa tra (OValT v) cx r0a r0bl = (OCompl sa OFin, tra, Some (OErr tcode))) /\
+  (forall s sc tr, un_done UDoneOpt s sc tr (OValT v) = (OCompl sc OFin, tr ++ [], Some (OErr tcode))) /\
+  (forall ns i, conc_child_done BWhenAll ns i (OValT v) = conc_child_done BWhenAll ns i (OErr tcode)) /\
+  (forall ns i, conc_child_done BWhenAny ns i (OValT v) = conc_child_done BWhenAny ns i (OErr tcode)).
+Proof. exact thrown_store_is_error. Qed.
+Print Assumptions C11_calc2_thrown_store_is_error.
+
+Theorem C11_calc2_finally_thrown_runs_completion : forall a b ns sa sb id o cx sa' tra v hit,
+  ph ns = PFirst ->
+  child_ev (bin_throw BFinally false) (bin_catch BFinally false) a sa id (bin_in BFinally false o) o cx
+    = ((sa', tra, Some (OValT v)), hit) ->
+  leafev (Bin BFinally a b) (ONode ns sa sb) id o cx =
+  (let '(sb', trb, rb) := start b (n_env ns) cx in
+   match rb with
+   | None => (ONode (ns_set_saved (ns_set_ph ns PSecond) (Some (OErr tcode))) OFin sb', (tra ++ dtor a sa') ++ trb, None)
+   | Some ob => seq_final BFinally b sb' ((tra ++ dtor a sa') ++ trb) (after_second BFinally (Some (OErr tcode)) ob)
+   end, hit).
+Proof. exact finally_thrown_runs_completion. Qed.
+Print Assumptions C11_calc2_finally_thrown_runs_completion.
+
 Theorem C11_calc2_exec_run : forall e pre script, exec e pre script = run_end e (run e pre script).
 Proof. exact exec_run. Qed.
 Print Assumptions C11_calc2_exec_run.
@@ -139,5 +171,13 @@ Example C11_calc2_ex :
     [XT (TSchedStart 101 1); XT (TSchedDtor 1);
      XT (TLeafStart 1 false true 0 0 1 1); XT (TLeafStop 1);
      XT (TLeafDtor 1); XT (TSchedStart 100 0);
-     XT (TSchedDtor 0); XRoot (OVal 7) 0 0; XRootDtor].
+     XT (TSchedDtor 0); XRoot (OVal 7) 0 0; XRootDtor] /\
+  (* a throwing value (L0:t5 on context 3): via still hops to context 2 and completes there with error 77;
+     under when_all the sibling is stopped and the root completes with the error *)
+  r_tr (exec (via 100 2 (Leaf 0)) false [EvLeaf 0 (OValT 5) 3; EvRun 2]) =
+    [XT (TLeafStart 0 false true 0 0 0 0); XT (TLeafDtor 0); XT (TSchedStart 100 2); XT (TSchedDtor 2);
+     XRoot (OErr 77) 0 2; XRootDtor] /\
+  r_tr (exec (Bin BWhenAll (Leaf 0) (LeafN 1)) false [EvLeaf 0 (OValT 5) 3]) =
+    [XT (TLeafStart 0 false true 0 0 0 0); XT (TLeafStart 1 false true 0 0 0 0); XT (TLeafStop 1);
+     XRoot (OErr 77) 0 3; XRootDtor; XT (TLeafDtor 0); XT (TLeafDtor 1)].
 Proof. vm_compute. repeat split. Qed.
